@@ -37,6 +37,23 @@ def run(ctx):
         ctx.attempt(r)
 
 
+def _arg_role(f, a):
+    """parameter name, or 'mirrored(<param>)' for a local point created at the negated load of a parameter"""
+    if isinstance(a, ast.Name) and a.id in f.params:
+        return a.id
+    if isinstance(a, ast.Name):
+        for s in f.node.body:
+            if isinstance(s, ast.Assign) and isinstance(s.targets[0], ast.Name) and s.targets[0].id == a.id and \
+                    isinstance(s.value, ast.Call) and "_HCM_Point" in norm_text(s.value.func):
+                ld = next((k.value for k in s.value.keywords if k.arg == "load"), None)
+                if isinstance(ld, ast.UnaryOp) and isinstance(ld.op, ast.USub) and isinstance(ld.operand, ast.Attribute) and \
+                        ld.operand.attr == "load" and isinstance(ld.operand.value, ast.Name):
+                    return "mirrored(%s)" % ld.operand.value.id
+                return "point(%s)" % (norm_text(ld) if ld is not None else "?")
+        return "local"
+    return norm_text(a)
+
+
 def _branch_calls(f):
     out = []
     for s in walk_stmts(f.node.body):
@@ -45,7 +62,7 @@ def _branch_calls(f):
         for c in calls_in(s):
             if isinstance(c.func, ast.Attribute) and is_self_attr(c.func) and c.func.attr in ("_proceed_on_primary_branch",
                                                                                                 "_proceed_on_secondary_branch"):
-                out.append((c.func.attr.replace("_proceed_on_", "").replace("_branch", ""), [norm_text(a) for a in c.args]))
+                out.append((c.func.attr.replace("_proceed_on_", "").replace("_branch", ""), [_arg_role(f, a) for a in c.args]))
     return out
 
 
@@ -53,7 +70,7 @@ def _r1(ctx):
     prog = ctx.prog
     ctx.rule("R-C05-1", floor=8, what="HCM case table: handler -> branch routine(s); guards -> handlers")
     want = {
-        "_handle_case_a_i": [("secondary", ["previous_point", "flipped_previous_point"]), ("primary", ["current_point"])],
+        "_handle_case_a_i": [("secondary", ["previous_point", "mirrored(previous_point)"]), ("primary", ["current_point"])],
         "_handle_case_a_ii": [("secondary", ["previous_point", "current_point"])],
         "_handle_case_b": [("primary", ["current_point"])],
         "_handle_case_c_i": [("secondary", ["previous_point_1", "current_point"])],
@@ -66,14 +83,6 @@ def _r1(ctx):
             ctx.holds(f, f.node, "%s -> %s" % (h, [k for k, _ in w] or "no new point"))
         else:
             ctx.violated(f, f.node, "%s follows %s; the HCM case needs %s" % (h, got, w), text="%s %s" % (h, got))
-    a = prog.func(D + "_handle_case_a_i")
-    fl = [s for s in a.node.body if isinstance(s, ast.Assign) and isinstance(s.targets[0], ast.Name)
-          and s.targets[0].id == "flipped_previous_point" and isinstance(s.value, ast.Call) and "_HCM_Point" in norm_text(s.value.func)]
-    ok = fl and norm_text(next((k.value for k in fl[0].value.keywords if k.arg == "load"), ast.Constant(None))) == "-previous_point.load"
-    if ok:
-        ctx.holds(a, fl[0], "Memory 3: secondary branch runs to the mirrored previous load")
-    else:
-        ctx.violated(a, fl[0] if fl else a.node, "Memory 3: the secondary part does not end at the mirrored previous load -L")
     ps = prog.func(D + "_hcm_process_sample")
     loop = [s for s in ps.node.body if isinstance(s, ast.While)][0]
     top = [s for s in loop.body if isinstance(s, ast.If)]
@@ -122,56 +131,85 @@ def _r1(ctx):
                      text="memory 1/2")
 
 
+def _unwrap(e):
+    while True:
+        if isinstance(e, ast.Call) and call_name(e) == "pd.Series" and e.args:
+            e = e.args[0]
+        elif isinstance(e, ast.Attribute) and e.attr == "values":
+            e = e.value
+        else:
+            return e
+
+
 def _r2(ctx):
+    from ..cfg import CFG
+    from ..dataflow import inline_env
+    from ..astutil import subst_names
     prog = ctx.prog
     ctx.rule("R-C05-2", floor=3, what="Masing increment from one base point; primary: stress(load) then strain(stress, load)")
     f = prog.func(D + "_proceed_on_secondary_branch")
     prev, cur = f.params[1], f.params[2]
-    env = {s.targets[0].id: s for s in f.node.body if isinstance(s, ast.Assign) and isinstance(s.targets[0], ast.Name)}
-    first = [s for s in f.node.body if isinstance(s, ast.Assign) and isinstance(s.targets[0], ast.Name) and s.targets[0].id == "delta_L"]
-    ok = first and isinstance(first[0].value, ast.BinOp) and isinstance(first[0].value.op, ast.Sub) and \
-        norm_text(first[0].value.left).startswith(cur + ".load") and norm_text(first[0].value.right).startswith(prev + ".load")
-    if ok:
-        ctx.holds(f, first[0], "load increment = current - previous")
-    else:
-        ctx.violated(f, first[0] if first else f.node, "secondary branch: load increment is not current.load - previous.load")
-    ds = env.get("delta_sigma")
-    de = env.get("delta_epsilon")
-    ok = ds is not None and de is not None and norm_text(ds.value) == "self._notch_approximation_law.stress_secondary_branch(delta_L)" and \
-        norm_text(de.value) == "self._notch_approximation_law.strain_secondary_branch(delta_sigma, delta_L)"
-    if ok:
-        ctx.holds(f, ds, "law called with the load increment: stress_secondary_branch(dL), strain_secondary_branch(dS, dL)")
-    else:
-        ctx.violated(f, ds or f.node, "secondary branch does not call the law's secondary functions with the load increment")
+    cfg = CFG(f.node)
     st = {}
     for s in f.node.body:
         if isinstance(s, ast.Assign) and isinstance(s.targets[0], ast.Attribute) and isinstance(s.targets[0].value, ast.Name) and \
                 s.targets[0].value.id == cur and s.targets[0].attr in ("_stress", "_strain"):
-            v = s.value.args[0] if isinstance(s.value, ast.Call) and s.value.args else s.value
-            st[s.targets[0].attr] = (s, v)
-    ok = set(st) == {"_stress", "_strain"}
-    if ok:
-        for attr, inc in (("_stress", "delta_sigma"), ("_strain", "delta_epsilon")):
-            v = st[attr][1]
-            ok = ok and isinstance(v, ast.BinOp) and isinstance(v.op, ast.Add) and \
-                {norm_text(v.left).split(".values")[0], norm_text(v.right).split(".values")[0]} == {"%s.%s" % (prev, attr), inc}
-    if ok:
-        ctx.holds(f, st["_stress"][0], "stress and strain = the same previous point + their increments")
+            env = inline_env(cfg, s)
+            env.pop("__ambiguous__")
+            st[s.targets[0].attr] = (s, _unwrap(subst_names(s.value, env)))
+    if set(st) != {"_stress", "_strain"}:
+        raise AnalysisError("_proceed_on_secondary_branch: stress/strain stores of the current point not found")
+    law = {"_stress": "stress_secondary_branch", "_strain": "strain_secondary_branch"}
+    incs = {}
+    problems = []
+    for attr in ("_stress", "_strain"):
+        s_, v = st[attr]
+        if not (isinstance(v, ast.BinOp) and isinstance(v.op, ast.Add)):
+            problems.append("%s is not previous + increment" % attr)
+            continue
+        parts = [_unwrap(v.left), _unwrap(v.right)]
+        base = [p for p in parts if isinstance(p, ast.Attribute) and isinstance(p.value, ast.Name)]
+        inc = [p for p in parts if isinstance(p, ast.Call)]
+        if len(base) != 1 or len(inc) != 1:
+            problems.append("%s is not previous + law increment" % attr)
+            continue
+        if not (base[0].value.id == prev and base[0].attr == attr):
+            problems.append("%s increment is added to %s instead of %s.%s" % (attr, norm_text(base[0]), prev, attr))
+        c = inc[0]
+        if not (isinstance(c.func, ast.Attribute) and is_self_attr(c.func.value, "_notch_approximation_law") and c.func.attr == law[attr]):
+            problems.append("%s increment comes from %s, not from the law's %s" % (attr, norm_text(c.func), law[attr]))
+        incs[attr] = c
+    if not problems:
+        cs, ce = incs["_stress"], incs["_strain"]
+        dl = _unwrap(cs.args[0]) if cs.args else None
+        ok_dl = isinstance(dl, ast.BinOp) and isinstance(dl.op, ast.Sub) and norm_text(_unwrap(dl.left)) == "%s.load" % cur and \
+            norm_text(_unwrap(dl.right)) == "%s.load" % prev
+        if not ok_dl:
+            problems.append("load increment is %s, not current.load - previous.load" % (norm_text(dl) if dl is not None else None))
+        if len(ce.args) != 2 or norm_text(ce.args[0]) != norm_text(cs) or norm_text(ce.args[1]) != norm_text(cs.args[0]):
+            problems.append("strain increment is not strain_secondary_branch(stress increment, load increment)")
+    if problems:
+        ctx.violated(f, st["_stress"][0], "secondary branch: " + "; ".join(problems), text="secondary: " + problems[0])
     else:
-        ctx.violated(f, st.get("_stress", (f.node,))[0], "secondary branch: stress/strain are not previous + increment of one and the "
-                     "same previous point: %s" % {k: norm_text(v[1]) for k, v in st.items()})
+        ctx.holds(f, st["_stress"][0], "load increment = current - previous; stress/strain = the same previous point + law increments")
+        ctx.holds(f, st["_strain"][0], "strain increment = strain_secondary_branch(stress increment, load increment)")
     g = prog.func(D + "_proceed_on_primary_branch")
-    genv = {s.targets[0].id: norm_text(s.value) for s in g.node.body if isinstance(s, ast.Assign) and isinstance(s.targets[0], ast.Name)}
     c = g.params[1]
-    ok = genv.get("sigma") == "self._notch_approximation_law.stress(%s.load)" % c and \
-        genv.get("epsilon") == "self._notch_approximation_law.strain(sigma, %s.load)" % c
-    stp = {s.targets[0].attr: norm_text(s.value) for s in g.node.body if isinstance(s, ast.Assign) and
-           isinstance(s.targets[0], ast.Attribute) and isinstance(s.targets[0].value, ast.Name) and s.targets[0].value.id == c}
-    ok = ok and "sigma" in stp.get("_stress", "") and "epsilon" in stp.get("_strain", "")
-    if ok:
-        ctx.holds(g, g.node, "primary branch: stress(load), strain(stress, load) stored in the point")
+    gcfg = CFG(g.node)
+    stp = {}
+    for s in g.node.body:
+        if isinstance(s, ast.Assign) and isinstance(s.targets[0], ast.Attribute) and isinstance(s.targets[0].value, ast.Name) and \
+                s.targets[0].value.id == c and s.targets[0].attr in ("_stress", "_strain"):
+            env = inline_env(gcfg, s)
+            env.pop("__ambiguous__")
+            stp[s.targets[0].attr] = norm_text(_unwrap(subst_names(s.value, env)))
+    want_s = "self._notch_approximation_law.stress(%s.load)" % c
+    want_e = "self._notch_approximation_law.strain(%s, %s.load)" % (want_s, c)
+    if stp.get("_stress") == want_s and stp.get("_strain") == want_e:
+        ctx.holds(g, g.node, "primary branch: stress(load), strain(stress(load), load) stored in the point")
     else:
-        ctx.violated(g, g.node, "primary branch does not compute stress(load) then strain(stress, load) for the point", text="primary")
+        ctx.violated(g, g.node, "primary branch stores stress=%s strain=%s; expected stress(load) and strain(stress, load)" %
+                     (stp.get("_stress"), stp.get("_strain")), text="primary")
 
 
 def _r3(ctx):
@@ -184,8 +222,9 @@ def _r3(ctx):
         if len(unp) != 1:
             raise AnalysisError("%s: recording lists are not unpacked" % h)
         names = [t.id for t in unp[0].targets[0].elts]
-        if names[:10] != LISTS:
-            ctx.violated(f, unp[0], "%s unpacks the recording lists as %s" % (h, names), text="unpack order")
+        if len(names) != len(LISTS) + 1:
+            ctx.violated(f, unp[0], "%s unpacks %d recording lists, the detector keeps %d" % (h, len(names), len(LISTS) + 1),
+                         text="unpack count")
             continue
         counts = {n: 0 for n in names}
         for s in f.node.body:
@@ -200,8 +239,8 @@ def _r3(ctx):
                     s.value.func.attr == "append" and isinstance(s.value.func.value, ast.Name) and s.value.func.value.id in counts:
                 counts[s.value.func.value.id] += 1
         nested = [s for s in walk_stmts(f.node.body) if isinstance(s, (ast.If, ast.For, ast.While)) and
-                  any(isinstance(n, ast.Name) and n.id in LISTS and isinstance(n.ctx, ast.Store) for n in ast.walk(s))]
-        bad = {k: v for k, v in counts.items() if k in LISTS and v != 1}
+                  any(isinstance(n, ast.Name) and n.id in names[:10] and isinstance(n.ctx, ast.Store) for n in ast.walk(s))]
+        bad = {k: v for k, v in counts.items() if k in names[:10] and v != 1}
         ret = [s for s in f.node.body if isinstance(s, ast.Return)][-1]
         rl = [n for n in ast.walk(ret.value) if isinstance(n, ast.List) and len(n.elts) == len(names)]
         ret_ok = rl and [norm_text(e) for e in rl[0].elts] == names
